@@ -248,7 +248,7 @@ class PeeringScenario(Scenario):
                     if ident not in run and ident in status and ident not in killed:
                         out.append(self.viol(env, 'record-not-withdrawn', f"t={t}: operator {ident} exited gracefully but its record is still there", clause='withdrawn'))
                 for ident, tk in killed.items():
-                    if ident not in run and ident in status and run and t - tk > LIFETIME + 70:
+                    if ident not in run and ident in status and run and t - tk > max(LIFETIME, int(self.params.get('lifetime', LIFETIME))) + 70:
                         out.append(self.viol(env, 'dead-record-not-cleaned', f"t={t}: the record of {ident} (killed at {tk}) was never cleaned up", clause='cleaned'))
                 for g, until in gh.items():
                     if until < t - 70 and f'ghost-{g}' in status and run:
